@@ -15,6 +15,12 @@ import (
 func relOf(f fact) (string, bool) {
 	b, ok := f.Cond.(*ssa.BinOp)
 	if !ok {
+		// a call of a straight-line helper that returns a comparison: use the comparison itself
+		if c, isCall := f.Cond.(*ssa.Call); isCall {
+			if r, ok := relFromKey(sk(c), f.Val); ok {
+				return r, true
+			}
+		}
 		// boolean value itself, or negation
 		if u, ok := f.Cond.(*ssa.UnOp); ok && u.Op == token.NOT {
 			return relOf(fact{u.X, !f.Val})
@@ -137,4 +143,39 @@ func topLevelIndex(s, op string) int {
 		}
 	}
 	return -1
+}
+
+// relFromKey turns a key of the form "(A op B)" (an inlined comparison) with a truth value into a canonical relation.
+func relFromKey(k string, val bool) (string, bool) {
+	if len(k) < 2 || k[0] != '(' || k[len(k)-1] != ')' {
+		return "", false
+	}
+	in := k[1 : len(k)-1]
+	for _, op := range []string{" <= ", " >= ", " == ", " != ", " < ", " > "} {
+		i := topLevelIndex(in, op)
+		if i < 0 {
+			continue
+		}
+		x, y := in[:i], in[i+len(op):]
+		o := strings.TrimSpace(op)
+		if !val {
+			o = map[string]string{"<": ">=", "<=": ">", ">": "<=", ">=": "<", "==": "!=", "!=": "=="}[o]
+		}
+		switch o {
+		case ">":
+			return y + " < " + x, true
+		case ">=":
+			return y + " <= " + x, true
+		case "<":
+			return x + " < " + y, true
+		case "<=":
+			return x + " <= " + y, true
+		case "==", "!=":
+			if y < x {
+				x, y = y, x
+			}
+			return x + " " + o + " " + y, true
+		}
+	}
+	return "", false
 }
